@@ -276,6 +276,11 @@ def _ops():
     op("triangle.circumcenter", (2, 3), ("tri",), lambda g: g.circumcenter, coll=False)
     op("triangle.area", (2, 3), ("tri",), lambda g: g.area, coll=False)
     op("tetrahedron.volume", (3,), ("tet",), lambda g: g.volume, coll=False)
+    # constructions applied to a direction (a point at infinity): the mirror image of a direction is a direction
+    op("mirror(direction)", (2,), ("l0", "pinf"), lambda a, b: a.mirror(b))
+    op("Plane.mirror(direction)", (3,), ("e0", "pinf"), lambda a, b: a.mirror(b))
+    op("mirror(mirror(direction))", (2,), ("l0", "pinf"), lambda a, b: a.mirror(a.mirror(b)))
+    op("Plane.mirror(mirror(direction))", (3,), ("e0", "pinf"), lambda a, b: a.mirror(a.mirror(b)))
     # more objects than the dimension requires: the first ones dependent, a later one decides
     op("is_collinear(p,q,mid,r)", (2,), ("p0", "p1", "p2"), lambda a, b, c: G.is_collinear(a, b, G.Point(a.normalized_array + b.normalized_array), c), coll=False)
     op("is_coplanar(p,q,r,centroid,s)", (3,), ("p0", "p1", "p2", "p3"), lambda a, b, c, e: G.is_coplanar(a, b, c, G.Point(a.normalized_array + b.normalized_array + c.normalized_array), e), coll=False)
